@@ -129,6 +129,15 @@ class Component(PrintObject):
           full_struct += dp * domain.length
         full_struct += "+"
       struct = full_struct[:-1] # Get rid of trailing +
+      # Paired domains may have different lengths, so re-check that parens still match
+      depth = 0
+      for symb in struct:
+        if symb == "(":
+          depth += 1
+        elif symb == ")":
+          depth -= 1
+          self.assertTrue( depth >= 0, "Parens don't match in structure %s after domain expansion: %s" % (name, struct) )
+      self.assertTrue( depth == 0, "Parens don't match in structure %s after domain expansion: %s" % (name, struct) )
     try:
       self.structs[name] = Structure(name, self.prefix, strands, struct, opt)
     except AssertionError as e:
